@@ -202,7 +202,128 @@ let expr_case toks =
       else Printf.sprintf "%s # %s" (strl mres.(0)) (strl sres.(0))
   | _ -> "badcase"
 
-let dispatch : (string * (string list -> string)) list ref = ref [ ("ops", ops_case); ("ntt", ntt_case); ("expr", expr_case) ]
+(* ------------------------------------------------------------------ C04: CRT lift *)
+let crt_case toks =
+  match toks with
+  | op :: w :: n :: nm :: words ->
+      let wi = int_of_string w and n = int_of_string n and nm = int_of_string nm in
+      let wz = czi wi in
+      let ps = List.init nm (fun cm -> let (p, _, _, _) = row wi cm in p) in
+      let psz = Array.of_list (List.map zz_of_cz ps) in
+      let q = Array.fold_left Z.mul Z.one psz in
+      let with_model = nm <= 12 in
+      let zw = Array.of_list (List.map Z.of_string words) in
+      (* independent spec: CRT with zarith's own modular inverse *)
+      let spec_lift (r : Z.t array) =
+        let acc = ref Z.zero in
+        Array.iteri (fun i p -> let qi = Z.div q p in acc := Z.add !acc (Z.mul (Z.mul r.(i) qi) (Z.invert (Z.erem qi p) p))) psz;
+        Z.erem !acc q in
+      let coef_res off i = Array.init nm (fun cm -> zw.(off + cm * n + i)) in
+      let model_lift r = if with_model then (match M.poly2mpz_coef wz ps (List.map cz_of_zz (Array.to_list r)) with Some x -> Z.to_string (zz_of_cz x) | None -> "none") else "?" in
+      let mb = Buffer.create 256 and sb = Buffer.create 256 in
+      let out m s = Buffer.add_string mb m; Buffer.add_char mb ' '; Buffer.add_string sb s; Buffer.add_char sb ' ' in
+      (match op with
+       | "lift" -> for i = 0 to n - 1 do let r = coef_res 0 i in out (model_lift r) (Z.to_string (spec_lift r)) done
+       | "unlift" ->
+           for cm = 0 to nm - 1 do for i = 0 to n - 1 do
+             let m = if with_model then str (List.nth (M.mpz2poly_coef ps (cz_of_zz zw.(i))) cm) else "?" in
+             out m (Z.to_string (Z.erem zw.(i) psz.(cm))) done done
+       | "rt" -> for i = 0 to n - 1 do
+             let r = Array.map (fun p -> Z.erem zw.(i) p) psz in
+             let m = if with_model then (match M.poly2mpz_coef wz ps (M.mpz2poly_coef ps (cz_of_zz zw.(i))) with Some x -> str x | None -> "none") else "?" in
+             ignore r; out m (Z.to_string (Z.erem zw.(i) q)) done
+       | "lift_unlift" ->
+           for cm = 0 to nm - 1 do for i = 0 to n - 1 do
+             let r = coef_res 0 i in
+             let m = if with_model then (match M.poly2mpz_coef wz ps (List.map cz_of_zz (Array.to_list r)) with Some x -> str (List.nth (M.mpz2poly_coef ps x) cm) | None -> "none") else "?" in
+             out m (Z.to_string r.(cm)) done done
+       | "ringadd" | "ringsub" | "ringmul" ->
+           let big off = Array.init n (fun i -> spec_lift (coef_res off i)) in
+           let a = big 0 and b = big (n * nm) in
+           let c = (match op with
+             | "ringadd" -> Array.mapi (fun i x -> Z.erem (Z.add x b.(i)) q) a
+             | "ringsub" -> Array.mapi (fun i x -> Z.erem (Z.sub x b.(i)) q) a
+             | _ -> spec_nega q a b) in
+           Array.iter (fun x -> out "?" (Z.to_string x)) c
+       | _ -> out "badop" "badop");
+      Printf.sprintf "%s# %s" (Buffer.contents mb) (Buffer.contents sb)
+  | _ -> "badcase"
+
+(* ------------------------------------------------------------------ C15: setters *)
+(* line: set <w> <n> <nm> <polykind> <src> <reduce> <kind> values...   (old content = 5 + index) *)
+let set_case toks =
+  match toks with
+  | _ :: w :: n :: nm :: _ :: src :: reduce :: kind :: vals ->
+      let wi = int_of_string w and n = int_of_string n and nm = int_of_string nm in
+      let ps = List.init nm (fun cm -> let (p, _, _, _) = row wi cm in p) in
+      let pf = fun cm -> List.nth ps (int_of_nat cm) in
+      let reduce = (reduce = "1") || kind = "mpz" || src = "assign" in
+      let vs = czl vals in
+      let old = List.init (n * nm) (fun i -> czi (5 + i)) in
+      let is_scalar = (src = "scalar" || src = "assign") in
+      let res =
+        if is_scalar && (match vs with [ M.Z0 ] -> true | _ -> false) then Some (List.init (n * nm) (fun _ -> czi 0))
+        else M.set_list (nat_of_int n) (nat_of_int nm) pf reduce vs old in
+      (* spec: the documented rule, computed directly *)
+      let k = List.length vs in
+      let zv = Array.of_list (List.map zz_of_cz vs) and zp = Array.of_list (List.map zz_of_cz ps) in
+      let redz cm v = if reduce then Z.erem v zp.(cm) else v in
+      let spec =
+        if k <= n && not (k = n * nm && nm > 1) then Some (List.init (n * nm) (fun idx -> let cm = idx / n and i = idx mod n in if i < k then redz cm zv.(i) else Z.zero))
+        else if k = n * nm then Some (List.init (n * nm) (fun idx -> redz (idx / n) zv.(idx)))
+        else None in
+      let ms = (match res with Some l -> "ok " ^ strl l | None -> "throw " ^ strl old) in
+      let ss = (match spec with Some l -> "ok " ^ String.concat " " (List.map Z.to_string l) | None -> "throw " ^ strl old) in
+      ms ^ " # " ^ ss
+  | _ -> "badcase"
+
+(* ------------------------------------------------------------------ C16: serialisation *)
+let hexb (l : M.z list) = String.concat "" (List.map (fun b -> Printf.sprintf "%02x" (Z.to_int (zz_of_cz b))) l)
+let unhexb (h : string) = List.init (String.length h / 2) (fun i -> czi (int_of_string ("0x" ^ String.sub h (2 * i) 2)))
+let spec_le wb (v : Z.t) = String.concat "" (List.init wb (fun i -> Printf.sprintf "%02x" (Z.to_int (Z.logand (Z.shift_right v (8 * i)) (Z.of_int 255)))))
+let serial_case toks =
+  match toks with
+  | op :: w :: n :: nm :: pk :: rest ->
+      let wi = int_of_string w and n = int_of_string n and nm = int_of_string nm in
+      let wb = nat_of_int (wi / 8) in
+      let cnt = n * nm in
+      let old = List.init cnt (fun i -> czi (9 + i)) in
+      (match op with
+       | "ser" | "cereal_bin" | "cereal_pbin" ->
+           let ws = czl rest in
+           let m = hexb (M.serialize wb ws) and s = String.concat "" (List.map (fun v -> spec_le (wi / 8) (zz_of_cz v)) ws) in
+           let pre = if op = "cereal_pbin" then "01" else "" in
+           if op = "ser" then pre ^ m ^ " # " ^ pre ^ s else Printf.sprintf "%s%s | %s # %s%s | %s" pre m (strl ws) pre s (strl ws)
+       | "cereal_json" ->
+           let ws = czl rest in
+           let body = String.concat "," (List.mapi (fun i v -> Printf.sprintf "\"value%d\":%s" i (str v)) ws) in
+           let wrap x = "{\"value0\":" ^ x ^ "}" in
+           let j = wrap (wrap ("{" ^ body ^ "}")) in
+           let j = if pk = "polyp" then wrap j else j in
+           Printf.sprintf "%s | %s # %s | %s" j (strl ws) j (strl ws)
+       | "text" ->
+           let ws = czl rest in
+           let suf = if wi = 64 then "ULL" else if wi = 32 then "UL" else "U" in
+           let t = "{ " ^ String.concat ", " (List.map (fun v -> str v ^ suf) ws) ^ " }" in
+           t ^ " # " ^ t
+       | "deser" ->
+           let bytes = (match rest with [ "-" ] -> [] | [ h ] -> unhexb h | _ -> []) in
+           let len = List.length bytes in
+           let ((ws, _), ok) = M.deserialize wb (nat_of_int cnt) bytes in
+           let m = if ok then Printf.sprintf "ok %d guards-intact %s" (cnt * wi / 8) (strl ws)
+                   else Printf.sprintf "fail %d guards-intact %s" len (strl (M.overlay wb old bytes)) in
+           m ^ " # " ^ m
+       | "deser2" ->
+           let bytes = (match rest with [ h ] -> unhexb h | _ -> []) in
+           let ((w1, r1), ok1) = M.deserialize wb (nat_of_int cnt) bytes in
+           let ((w2, _), ok2) = M.deserialize wb (nat_of_int cnt) r1 in
+           let m = Printf.sprintf "%s %s | %s %d %s" (if ok1 then "ok" else "fail") (strl w1) (if ok2 then "ok" else "fail") (2 * cnt * wi / 8) (strl w2) in
+           m ^ " # " ^ m
+       | "cereal_in" -> (match rest with [ h ] -> let ((ws, _), _) = M.deserialize wb (nat_of_int cnt) (unhexb h) in strl ws ^ " # " ^ strl ws | _ -> "badcase")
+       | _ -> "badop # badop")
+  | _ -> "badcase"
+
+let dispatch : (string * (string list -> string)) list ref = ref [ ("ops", ops_case); ("ntt", ntt_case); ("expr", expr_case); ("crt", crt_case); ("set", set_case); ("serial", serial_case) ]
 
 let () =
   let family = if Array.length Sys.argv > 1 then Sys.argv.(1) else "ops" in
